@@ -705,7 +705,7 @@ class PointsTo:
                 elif i.op == 'call' and not P.is_dbg(i):
                     t = P.call_target(i)
                     if t[0] == 'direct' and t[1] == 'bsearch': flag.add(('v', f.name, i.id))
-                    if t[0] == 'direct' and t[1] not in P.defined and not (t[1].startswith('llvm.memcpy') or t[1].startswith('llvm.memmove') or t[1] in ('memcpy', 'memmove', 'malloc', 'calloc')):
+                    if t[0] == 'direct' and t[1] not in P.defined and (i.d.get('ty') or '').endswith('*') and not (t[1].startswith('llvm.memcpy') or t[1].startswith('llvm.memmove') or t[1] in ('memcpy', 'memmove', 'malloc', 'calloc')):
                         flag.add(('v', f.name, i.id))
         for g in P.globals.values():
             def has_off(tree):
